@@ -1198,6 +1198,20 @@ func (ft *FuncTr) block(b *ssa.BasicBlock) error {
 		pre, preAt := ft.merge(b, es)
 		l.pre, l.preAt = pre, preAt
 		l.heldEntry = ft.h.ghostVar(pre, "$held", SArray(SPtr, SInt))
+		// declared invariants of a whole-havoc loop: established here, assumed of the havoced head state below,
+		// maintained at the back edge (goEdge)
+		if invs := ft.invariants(l); len(invs) > 0 {
+			env := ft.newEnv(pre)
+			env.loop = l
+			env.pre = pre
+			for i, inv := range invs {
+				t, err := env.trBool(inv.E)
+				if err != nil {
+					return fmt.Errorf("loop %d invariant[%d] (%s:%d): %v", l.Ordinal, i+1, inv.File, inv.Line, err)
+				}
+				ft.assert(preAt, t, fmt.Sprintf("loop%d.inv[%s].establish", l.Ordinal, clauseID(inv, i)), "", inv.Text, b.Instrs[0].Pos())
+			}
+		}
 		st = pre.clone()
 		for _, a := range sortedAllocs(l.modLocals) {
 			if a.Heap {
@@ -1219,6 +1233,18 @@ func (ft *FuncTr) block(b *ssa.BasicBlock) error {
 			st.ghost[n] = ft.d.Fresh(fmt.Sprintf("g_%s_h%d", n, b.Index), l.modGhost[n])
 		}
 		at = preAt
+		if invs := ft.invariants(l); len(invs) > 0 {
+			env := ft.newEnv(st)
+			env.loop = l
+			env.pre = pre
+			for i, inv := range invs {
+				t, err := env.trBool(inv.E)
+				if err != nil {
+					return fmt.Errorf("loop %d invariant[%d] (%s:%d): %v", l.Ordinal, i+1, inv.File, inv.Line, err)
+				}
+				ft.assume(preAt, t)
+			}
+		}
 		l.head = st.clone()
 	} else if l := ft.loops[b]; l != nil {
 		pre, preAt := ft.merge(b, es)
@@ -1392,6 +1418,18 @@ func (ft *FuncTr) goEdge(b, succ *ssa.BasicBlock, cond *Term, st *State) error {
 		}
 		if l.wholeHavoc {
 			ft.assert(cond, Eq(ft.h.ghostVar(st, "$held", SArray(SPtr, SInt)), l.heldEntry), fmt.Sprintf("guard.loop%d", l.Ordinal), "", "every iteration ends holding the same locks the loop was entered with", token.NoPos)
+			if invs := ft.invariants(l); len(invs) > 0 {
+				env := ft.newEnv(st)
+				env.loop = l
+				env.pre = l.pre
+				for i, inv := range invs {
+					t, err := env.trBool(inv.E)
+					if err != nil {
+						return fmt.Errorf("loop %d invariant[%d]: %v", l.Ordinal, i+1, err)
+					}
+					ft.assert(cond, t, fmt.Sprintf("loop%d.inv[%s].maintain", l.Ordinal, clauseID(inv, i)), "", inv.Text, token.NoPos)
+				}
+			}
 			return nil
 		}
 		env := ft.newEnv(st)
